@@ -103,6 +103,8 @@ def shape_sets(rng, thorough):
     for L in (28, 29, 30):
         sh["line%d" % L] = [b"k" * L]
     sh["pair60"] = [b"a" * 30, b"b" * 30]
+    # lengths at the byte boundary (a length kept in 8 bits wraps at 255 / 256)
+    sh["len255"] = sorted([b"m" * 254, b"m" * 255, b"m" * 256, b"m" * 300, b"mm", b"n"])
     # element counts at the word boundaries of per-element bitmaps (DAC levels, hash occupancy, bucket tables)
     two = sorted(bytes([a, b]) for a in b"abcdefghi" for b in b"abcdefgh")
     for n in (31, 32, 33, 63, 64, 65):
@@ -331,7 +333,9 @@ def sec_table(h, S, its):
 def sec_unsupported(h, kind, par, S, its):
     """every operation the kind does not provide, with well-formed arguments"""
     out = []
-    pats = [S[0], S[-1][:1], b"zz"]
+    # well-formed patterns: a member, one byte, an absent pair, a pattern shorter than the first member's first byte
+    # (sorts before every member) and one much longer than the longest member
+    pats = [S[0], S[-1][:1], b"zz", bytes([max(2, S[0][0] - 1)]), b"q" * (max(len(x) for x in S) + 40)]
     if kind not in PREFIX:
         for p in pats:
             it = its.new()
